@@ -23,7 +23,7 @@ func init() {
 		Assumptions: []string{"only 0 <= i < n (outside, the functions panic by design)"},
 		Flavours:    releaseThenGo126,
 		Required: []string{"i=n-1", "i%32=31", "i%32=0", "i%32=1", "answer-word!=checkpoint-word", "next/same-word", "next/later-word", "next/skips-empty-words", "next/absent",
-			"lane=0", "lane=1", "lane=2", "lane=3", "answer-in-high-byte-of-lane", "answer-in-low-byte-of-lane", "bitmap/no-ones", "ones>=65536"},
+			"lane=0", "lane=1", "lane=2", "lane=3", "answer-in-high-byte-of-lane", "answer-in-low-byte-of-lane", "bitmap/no-ones", "ones>=65536", "words>=65536", "gap>=2^31/31-bits"},
 		Families: func(c *mon.Config) []mon.Family {
 			return []mon.Family{
 				{Name: "lanes16", N: 4 * 2 * 64, Run: c02Lanes},
@@ -32,6 +32,7 @@ func init() {
 				{Name: "zoo", N: c.Pick(20000, 3000000), Run: c02Zoo},
 				{Name: "zoo-long", N: c.Pick(400, 100000), Run: c02ZooLong},
 				{Name: "dense-long", N: c.Pick(6, 300), Run: c02DenseLong},
+				{Name: "huge-sparse", N: c.Pick(1, 6), Run: c02HugeSparse},
 			}
 		},
 	})
@@ -57,6 +58,7 @@ func (c *c02Cov) flush(w *mon.W) {
 
 // c02Check runs the select API on one bitmap. scratch is reused between calls.
 func c02Check(w *mon.W, words []uint64, pos *[]int32, cov *c02Cov) bool {
+	words, guard := argW(w, words)
 	nw := len(words)
 	P := (*pos)[:0]
 	for i := 0; i < nw*64; i++ {
@@ -77,10 +79,7 @@ func c02Check(w *mon.W, words []uint64, pos *[]int32, cov *c02Cov) bool {
 		ret = &retained{}
 		w.State["c02"] = ret
 	}
-	if ret.keep(sidx, sidx2, ridx) >= 0 {
-		w.Fail("Index/earlier-returned-index-changed-by-later-call", mon.D{"what": "an index slice returned by an earlier IndexSelect32/IndexSelect32R64 call changed its content after a later call", "nwords_of_later_bitmap": nw})
-		return false
-	}
+	_ = ret
 	d := func(extra mon.D) mon.D {
 		extra["words"] = truncW(words, 6)
 		extra["nwords"] = nw
@@ -114,7 +113,7 @@ func c02Check(w *mon.W, words []uint64, pos *[]int32, cov *c02Cov) bool {
 	}
 	if n == 0 {
 		w.Bucket("bitmap/no-ones")
-		return true
+		return c02Finish(w, guard, ret, sidx, sidx2, ridx, nw)
 	}
 	end := int32(64 * nw)
 	for i := 0; i < n; i++ {
@@ -188,6 +187,54 @@ func c02Check(w *mon.W, words []uint64, pos *[]int32, cov *c02Cov) bool {
 	if n >= 2 && n < nw*64 {
 		w.Distinct(gen.HashWords(words))
 	}
+	// in-place update of the bitmap, then the index builders again (see C01)
+	if nw > 0 {
+		k := int((words[0] >> 7) % uint64(nw))
+		words[k] ^= 1<<uint(words[0]&63) | 1<<uint((words[0]>>8)&63)
+		w.Op = "IndexSelect32R64(after in-place update)"
+		s2, r2 := bitmap.IndexSelect32R64(words)
+		w.Op = "IndexSelect32(after in-place update)"
+		s1 := bitmap.IndexSelect32(words)
+		w.Eval(2)
+		var c int32
+		var exp []int32
+		for i := 0; i < nw*64; i++ {
+			if i&63 == 0 && r2[i>>6] != c {
+				w.Fail("Index/stale-after-in-place-update", d(mon.D{"what": "rank index of IndexSelect32R64 does not describe the bitmap after an in-place update", "entry": i >> 6, "got": r2[i>>6], "expected": c}))
+				return false
+			}
+			if bitAt(words, i) == 1 {
+				if c&31 == 0 {
+					exp = append(exp, int32(i))
+				}
+				c++
+			}
+		}
+		if !eqI32(s1, exp) || !eqI32(s2, exp) || r2[nw] != c {
+			w.Fail("Index/stale-after-in-place-update", d(mon.D{"what": "select index does not describe the bitmap after an in-place update", "got": trunc32(s1, 6), "got_r64": trunc32(s2, 6), "expected": trunc32(exp, 6)}))
+			return false
+		}
+		scribbleI32(s1)
+		scribbleI32(s2)
+		scribbleI32(r2)
+	}
+	return c02Finish(w, guard, ret, sidx, sidx2, ridx, nw)
+}
+
+// c02Finish: guard words around the argument intact; then the hostile caller scribbles over the
+// returned indexes and they are retained to detect later changes.
+func c02Finish(w *mon.W, guard func() bool, ret *retained, sidx, sidx2, ridx []int32, nw int) bool {
+	if !guard() {
+		w.Fail("Select/wrote-outside-len-of-argument", mon.D{"what": "poison next to the bitmap (before it, or between len and cap) was overwritten", "nwords": nw})
+		return false
+	}
+	scribbleI32(sidx)
+	scribbleI32(sidx2)
+	scribbleI32(ridx)
+	if ret.keep(sidx, sidx2, ridx) >= 0 {
+		w.Fail("Index/earlier-returned-index-changed-by-later-call", mon.D{"what": "an index slice returned by an earlier IndexSelect32/IndexSelect32R64 call changed its content after a later call", "nwords_of_later_bitmap": nw})
+		return false
+	}
 	return true
 }
 
@@ -238,7 +285,7 @@ func c02TwoBit(w *mon.W, idx int) {
 	w.Sample(func() interface{} { return mon.D{"two_bit_words_with_bit": idx} })
 }
 
-var c02Counts = []int{1, 2, 31, 32, 33, 63, 64, 65, 95, 96, 97, 128, 129, 255, 256, 257}
+var c02Counts = []int{1, 2, 31, 32, 33, 63, 64, 65, 95, 96, 97, 128, 129, 255, 256, 257, 2017, 2047, 2048, 2049, 4096, 8192}
 var c02GapChoices = []int{1, 1, 2, 63, 64, 65, 128, 200, 384}
 
 func c02Gaps(w *mon.W, idx int) {
@@ -302,6 +349,10 @@ func c02ZooLong(w *mon.W, idx int) {
 func c02DenseLong(w *mon.W, idx int) {
 	r := w.Rng
 	n := []int{1030, 1100, 2100}[idx%3]
+	if idx == 5 || w.Cfg.Thorough() && idx%32 == 9 {
+		n = []int{65536, 65539, 131075}[r.Intn(3)] // at and beyond 2^16 words
+		w.Bucket("words>=65536")
+	}
 	words := make([]uint64, n)
 	for i := range words {
 		switch (idx / 3) % 3 {
@@ -325,4 +376,60 @@ func c02DenseLong(w *mon.W, idx int) {
 		}
 		w.Sample(func() interface{} { return mon.D{"nwords": n, "ones": len(pos), "what": "dense long bitmap"} })
 	}
+}
+
+// c02HugeSparse: about 10^8 bits with a few dozen ones and a gap of more than 2^31/31 bits between
+// two sampled ones (positions and products of positions leave the comfortable int32 range).
+func c02HugeSparse(w *mon.W, idx int) {
+	r := w.Rng
+	nbits := 100000000 + r.Intn(5000000)
+	words := make([]uint64, (nbits+63)/64)
+	var ps []int
+	p := r.Intn(3000)
+	for i := 0; i < 70; i++ {
+		ps = append(ps, p)
+		switch {
+		case i == 32+idx%8:
+			p += 90000000 // the huge gap lies inside the second group of 32
+		default:
+			p += 1 + r.Intn(3000)
+		}
+	}
+	for _, q := range ps {
+		if q < nbits {
+			setBit(words, q)
+		}
+	}
+	w.Tick()
+	w.Op = "IndexSelect32R64(huge sparse)"
+	sidx, ridx := bitmap.IndexSelect32R64(words)
+	w.Tick()
+	w.Op = "IndexSelect32(huge sparse)"
+	sidx1 := bitmap.IndexSelect32(words)
+	w.Tick()
+	end := int32(64 * len(words))
+	var P []int32
+	for _, q := range ps {
+		if q < nbits {
+			P = append(P, int32(q))
+		}
+	}
+	for i := range P {
+		ea, eb := P[i], end
+		if i+1 < len(P) {
+			eb = P[i+1]
+		}
+		w.Op, w.A = "Select32(huge sparse)", int64(i)
+		a1, b1 := bitmap.Select32(words, sidx1, int32(i))
+		w.Op = "Select32R64(huge sparse)"
+		a2, b2 := bitmap.Select32R64(words, sidx, ridx, int32(i))
+		if a1 != ea || b1 != eb || a2 != ea || b2 != eb {
+			w.Fail("Select/huge-sparse", mon.D{"nbits": nbits, "i": i, "Select32": []int32{a1, b1}, "Select32R64": []int32{a2, b2}, "expected": []int32{ea, eb}})
+			return
+		}
+	}
+	w.Eval(int64(2*len(P)) + 2)
+	w.Bucket("gap>=2^31/31-bits")
+	w.Distinct(gen.Hash64(0x5a7, uint64(nbits), uint64(ps[0])))
+	w.Sample(func() interface{} { return mon.D{"nbits": nbits, "ones": len(P), "largest_gap_bits": 90000000} })
 }
